@@ -38,6 +38,7 @@ type CrashRun struct {
 	mem           *NSMem   // C13: every mapping handed out so far
 	memAfter      []*NSMem // memAfter[i] = mem after i ops
 	written       map[string]bool // identifiers (as in the scenario) written so far
+	settings      map[string]dsSettings
 	walEpochStart int // WAL offsets are only comparable for ops after the last clean restart
 	deletedIDs  map[uint32]bool
 	seenDsIDs   map[uint32]string // internal dataset id -> "name#incarnation"
@@ -311,7 +312,10 @@ func RunCrashScenario(sc *Scenario) (vd *Verdict) {
 		vd.Verdict, vd.Message = "error", err.Error()
 		return
 	}
-	r := &CrashRun{SeqRun: sr, maxSnap: int(sc.Knob("maxStates", 24)), deletedIDs: map[uint32]bool{}, seenDsIDs: map[uint32]string{}, incarnation: map[string]int{}, grabbed: map[string]*grabbedDS{}, mem: NewNSMem(), written: map[string]bool{}}
+	r := &CrashRun{SeqRun: sr, maxSnap: int(sc.Knob("maxStates", 24)), deletedIDs: map[uint32]bool{}, seenDsIDs: map[uint32]string{}, incarnation: map[string]int{}, grabbed: map[string]*grabbedDS{}, mem: NewNSMem(), written: map[string]bool{}, settings: map[string]dsSettings{}}
+	for _, d := range sc.Datasets {
+		r.settings[d] = dsSettings{}
+	}
 	r.noteDatasetIDs()
 	defer func() {
 		for _, cs := range r.states {
@@ -345,6 +349,9 @@ func RunCrashScenario(sc *Scenario) (vd *Verdict) {
 		}
 		if sc.Property == "C13" {
 			vd.Nontrivial = r.Stats["roundtrips"]+r.Stats["commits"] >= 2
+		}
+		if sc.Property == "C19" {
+			vd.Nontrivial = r.Stats["mgmt_ops"] >= 1 && r.Stats["commits"] >= 1
 		}
 	}()
 	armed := map[string]string{} // "point#hit" -> kind
@@ -469,10 +476,15 @@ func RunCrashScenario(sc *Scenario) (vd *Verdict) {
 					g.cur = ""
 				}
 			}
+			delete(r.settings, op.DS)
 			werr = r.H.Dsm.DeleteDataset(op.DS)
 			mgmt = true
 		case "createDataset":
-			_, werr = r.H.Dsm.CreateDataset(op.DS, nil)
+			st := settingsFromOp(op)
+			if r.H.Dataset(op.DS) == nil {
+				r.settings[op.DS] = st
+			}
+			_, werr = r.H.Dsm.CreateDataset(op.DS, st.config())
 			mgmt = true
 		case "renameDataset":
 			_, werr = r.H.Dsm.UpdateDataset(op.DS, &server.UpdateDatasetConfig{ID: op.DS2})
@@ -482,6 +494,8 @@ func RunCrashScenario(sc *Scenario) (vd *Verdict) {
 						g.cur = op.DS2
 					}
 				}
+				r.settings[op.DS2] = r.settings[op.DS]
+				delete(r.settings, op.DS)
 			}
 			mgmt = true
 		case "gc":
@@ -570,6 +584,14 @@ func RunCrashScenario(sc *Scenario) (vd *Verdict) {
 					fail(v, i)
 					return
 				}
+			}
+		}
+		if sc.Property == "C19" {
+			r.Stats["catalogue_checks"]++
+			if v := CheckCatalogue(r.H, r.settings); v != nil {
+				v.Signature = "after-" + op.K + ":" + v.Signature
+				fail(v, i)
+				return
 			}
 		}
 		if sc.Property == "C13" {
